@@ -34,7 +34,29 @@ Theorem C09_publish_proceeds : forall h p c d i r,
 Proof. exact (publish_proceeds bname store async_store). Qed.
 End C09.
 
+(* ---- the same for the code as TRANSLATED from the Python source on every run (harness/pytrans3.py -> BrokerGen.v):
+   run_src is the event loop with the translated Server.subscribe/unsubscribe/publish and Connection.on_publish/
+   on_subscribe/on_unsubscribe/authenticate/connection_lost/message_received plugged in; BrokerGenRun.run_src_eq proves it
+   equal to the model.  These theorems rely on functional_extensionality_dep (Coq standard library) and nothing else. *)
+From HP Require Import PyBroker BrokerGen BrokerGenEq BrokerGenRun BrokerGenProps.
+Theorem C09_src_run_is_model : forall bname store async_store h, run_src bname store async_store h = run bname store async_store h.
+Proof. exact run_src_eq. Qed.
+Theorem C09_src_lost_forgotten : forall bname store async_store h h' q, made (conns (run_src bname store async_store h) q) = true -> lost (conns (run_src bname store async_store h) q) = false ->
+  let s := run_src bname store async_store (h ++ Lost q :: h') in
+  copen (conns s q) = false /\ active (conns s q) = nil /\ (forall c, ~ In q (subs s c)).
+Proof. exact src_lost_forgotten. Qed.
+Theorem C09_src_stays_forgotten : forall bname store async_store h h' q, made (conns (run_src bname store async_store h) q) = true -> copen (conns (run_src bname store async_store h) q) = false ->
+  let s := run_src bname store async_store (h ++ h') in
+  copen (conns s q) = false /\ active (conns s q) = nil /\ (forall c, ~ In q (subs s c)).
+Proof. exact src_stays_forgotten. Qed.
+Theorem C09_src_connection_lost : forall q s, copen (conns s q) = true -> Connection_connection_lost q s = BOk false (lostp q s).
+Proof. exact src_connection_lost. Qed.
+
 Print Assumptions C09_lost_forgotten.
 Print Assumptions C09_stays_forgotten.
 Print Assumptions C09_registry_live.
 Print Assumptions C09_publish_proceeds.
+Print Assumptions C09_src_run_is_model.
+Print Assumptions C09_src_lost_forgotten.
+Print Assumptions C09_src_stays_forgotten.
+Print Assumptions C09_src_connection_lost.
